@@ -114,9 +114,11 @@ extern "C" {
 int clock_gettime(clockid_t id, struct timespec *ts)
 {
   if(S.active && id == CLOCK_MONOTONIC) {
-    Ev e = pop(1);
-    S.now_ns += arg(e, 0);
-    log(1, {S.now_ns});
+    if(!S.hooks.clock) {
+      Ev e = pop(1);
+      S.now_ns += arg(e, 0);
+    }
+    if(S.hooks.tid) log(1, {S.now_ns, S.hooks.tid()}); else log(1, {S.now_ns});
     // offset so that time points are comfortably positive
     long long t = S.now_ns + 1000000000000ll;
     ts->tv_sec = t / 1000000000ll;
@@ -131,6 +133,7 @@ int poll(struct pollfd *fds, nfds_t n, int timeout)
   bool anyv = false;
   for(nfds_t i = 0; i < n; ++i) anyv = anyv || isv(fds[i].fd);
   if(!anyv) return static_cast<int>(syscall(SYS_poll, fds, n, timeout));
+  if(S.hooks.poll) return S.hooks.poll(fds, n, timeout);
   std::vector<long long> a{timeout};
   for(nfds_t i = 0; i < n; ++i) { a.push_back(fds[i].fd); a.push_back(fds[i].events); }
   Ev e = pop(2);
@@ -146,6 +149,7 @@ int poll(struct pollfd *fds, nfds_t n, int timeout)
 ssize_t send(int fd, const void *buf, size_t len, int flags)
 {
   if(!isv(fd)) return syscall(SYS_sendto, fd, buf, len, flags, nullptr, 0);
+  if(S.hooks.send) return S.hooks.send(fd, buf, len, flags);
   Ev e = pop(3);
   log(3, {fd, static_cast<long long>(len), flags, arg(e, 0)});
   if(S.async_fds.count(fd)) {
@@ -169,6 +173,7 @@ ssize_t send(int fd, const void *buf, size_t len, int flags)
 ssize_t recv(int fd, void *buf, size_t len, int flags)
 {
   if(!isv(fd)) return syscall(SYS_recvfrom, fd, buf, len, flags, nullptr, nullptr);
+  if(S.hooks.recv) return S.hooks.recv(fd, buf, len);
   Ev e = pop(4);
   log(4, {fd, static_cast<long long>(len), arg(e, 0)});
   if(arg(e, 0) < 0) { errno = static_cast<int>(arg(e, 1)); return -1; }
@@ -182,6 +187,7 @@ ssize_t recv(int fd, void *buf, size_t len, int flags)
 ssize_t sendto(int fd, const void *buf, size_t len, int flags, const struct sockaddr *addr, socklen_t alen)
 {
   if(!isv(fd)) return syscall(SYS_sendto, fd, buf, len, flags, addr, alen);
+  if(S.hooks.sendto) return S.hooks.sendto(fd, buf, len, port_of(addr, alen));
   Ev e = pop(5);
   int port = port_of(addr, alen);
   log(5, {fd, static_cast<long long>(len), port - PORT_BASE_SYM, arg(e, 0)});
@@ -206,6 +212,7 @@ ssize_t sendto(int fd, const void *buf, size_t len, int flags, const struct sock
 ssize_t recvfrom(int fd, void *buf, size_t len, int flags, struct sockaddr *addr, socklen_t *alen)
 {
   if(!isv(fd)) return syscall(SYS_recvfrom, fd, buf, len, flags, addr, alen);
+  if(S.hooks.recvfrom) { int sp = 0; long r = S.hooks.recvfrom(fd, buf, len, &sp); if(r >= 0) fill_addr(addr, alen, sp); return r; }
   Ev e = pop(6);
   log(6, {fd, static_cast<long long>(len), arg(e, 0)});
   if(arg(e, 0) < 0) { errno = static_cast<int>(arg(e, 1)); return -1; }
